@@ -116,3 +116,38 @@ Example c04_pool_nonvacuous :
   let s := p_run barrier_gen (p_init 2) sched_fixed in
   pmain s = MRead /\ pmsg s = 0%Z /\ length (pws s) = 2.
 Proof. vm_compute. auto. Qed.
+
+(* ---- the injector queue (Model/Injector.v, tied to injector.rs by operation sequences) ----
+   what Pool.v assumes of it: is_empty() is exact, pop_bucket returns a non-empty bucket unless nothing is
+   stored, and tasks are neither lost nor duplicated *)
+Require Import NX.Model.Injector NX.Proofs.InjectorProofs.
+
+Theorem c04_injector_flag_exact :
+  forall cap ops, 1 <= cap -> Forall (op_ok cap) ops ->
+    let s := fst (inj_run cap inj_new ops) in iflag s = true <-> inj_tasks s = [].
+Proof. exact inj_flag_exact. Qed.
+Print Assumptions c04_injector_flag_exact.
+
+Theorem c04_injector_invariant :
+  forall cap ops, 1 <= cap -> Forall (op_ok cap) ops -> inj_inv cap (fst (inj_run cap inj_new ops)).
+Proof. exact inj_run_inv. Qed.
+Print Assumptions c04_injector_invariant.
+
+Theorem c04_injector_pop :
+  forall cap s, inj_inv cap s ->
+    match inj_pop s with
+    | (s', None) => inj_tasks s = [] /\ s' = s
+    | (s', Some b) => b <> [] /\ Permutation (inj_tasks s) (b ++ inj_tasks s')
+    end.
+Proof. exact inj_pop_spec. Qed.
+Print Assumptions c04_injector_pop.
+
+Theorem c04_injector_insert :
+  forall cap s t, Permutation (inj_tasks (inj_insert cap s t)) (t :: inj_tasks s).
+Proof. exact inj_insert_spec. Qed.
+Print Assumptions c04_injector_insert.
+
+Theorem c04_injector_push_bucket :
+  forall s b, inj_tasks (inj_push_bucket s b) = inj_tasks s ++ b.
+Proof. exact inj_push_spec. Qed.
+Print Assumptions c04_injector_push_bucket.
